@@ -427,6 +427,13 @@ bool TypeChecker::typesAreCompatible(
         bool treatVoidAsAny,
         bool ignoreQualifier)
 {
+    if (ignoreQualifier && ty2->kind() == TypeKind::Qualified)
+        return typesAreCompatible(
+                    ty1,
+                    ty2->asQualifiedType()->unqualifiedType(),
+                    treatVoidAsAny,
+                    ignoreQualifier);
+
     switch (ty1->kind()) {
         case TypeKind::Array:
             switch (ty2->kind()) {
@@ -603,8 +610,11 @@ bool TypeChecker::typesAreCompatible(
             break;
 
         case TypeKind::TypedefName:
-            PSY_ASSERT_1(false);
-            break;
+            return typesAreCompatible(
+                        resolvedSynonymOf(ty1),
+                        ty2,
+                        treatVoidAsAny,
+                        ignoreQualifier);
 
         case TypeKind::Tag:
             switch (ty2->kind()) {
@@ -648,7 +658,7 @@ bool TypeChecker::typesAreCompatible(
                                 treatVoidAsAny,
                                 ignoreQualifier);
                 case TypeKind::Tag:
-                    break;
+                    return treatVoidAsAny;
                 case TypeKind::Void:
                     return true;
                 case TypeKind::Qualified:
